@@ -1,5 +1,6 @@
 import EvyV.Model.Pratt
 import EvyV.Model.PrattW
+import EvyV.Model.PrattFmt
 /-
 Driver component `pratt`: request `pratt <token type names>` (operands as `a`), answer: the tree the
 parser model returns and the number of tokens left, or NONE.
@@ -63,6 +64,29 @@ def handleW (ws : List String) : String :=
     else
       match parseW false ts with
       | some (e, r) => s!"TREE {r.length} {render e}"
+      | none => "NONE"
+  | [] => "bad-op"
+
+/-- `layoutw <mode> <tokens>`: the formatter model's layout (Model/PrattFmt.lean) of the tree(s) the parser model
+reads, in the wire form of the request -/
+def kindName : Tok → String
+  | .atom _ => "a" | .op o => o.tokName | .bang => "BANG" | .lparen => "LPAREN" | .rparen => "RPAREN"
+  | .lbracket => "LBRACKET" | .rbracket => "RBRACKET" | .dot => "DOT" | .colon => "COLON" | .ty _ => "ty" | .other => "other"
+
+def wire (ts : List WTok) : String :=
+  " ".intercalate (ts.map (fun t => (if t.ws then "_" else "") ++ kindName t.tok))
+
+def handleLayout (ws : List String) : String :=
+  match ws with
+  | mode :: rest =>
+    let ts := (rest.zipIdx).map (fun (w, i) => wtokOf i w)
+    if mode == "args" then
+      match argsW (ts.length + 1) ts with
+      | some es => "LAYOUT " ++ wire ((es.zipIdx).flatMap (fun (e, i) => layout true (i > 0) e))
+      | none => "NONE"
+    else
+      match parseW false ts with
+      | some (e, _) => "LAYOUT " ++ wire (layout false false e)
       | none => "NONE"
   | [] => "bad-op"
 
